@@ -479,6 +479,9 @@ class Client(base_client.BaseClient):
             r = self._send_request(
                 'GET', self.base_url + self._get_url_timestamp(),
                 timeout=max(self.ping_interval, self.ping_timeout) + 5)
+            if self.state != 'connected':
+                # disconnected while the request was in progress
+                break
             if r is None or isinstance(r, str):
                 self.logger.warning(
                     r or 'Connection refused by the server, aborting')
@@ -541,6 +544,9 @@ class Client(base_client.BaseClient):
                         'Unexpected error receiving packet: "%s", aborting',
                         str(e))
                 self.queue.put(None)
+                break
+            if self.state != 'connected':
+                # disconnected while waiting for this packet
                 break
             try:
                 pkt = packet.Packet(encoded_packet=p)
